@@ -247,7 +247,29 @@ def spec_run(fsview, base, ops, infos):
         elif o[0] == 'V':
             out.append(require(o[2], o[3], [o[1]]))
         else:
-            return out + ['silent'] * (len(ops) - len(out)), None     # load-from-memory: spec silent afterwards
+            # load-from-memory: "loading a namespace also loads every dependency recorded in it at the recorded version"
+            inf = (infos or {}).get(o[1])
+            if inf is None:
+                return out + ['silent'] * (len(ops) - len(out)), None
+            ns = inf[0]
+            if ns in loaded:
+                if loaded[ns][0] == inf[1]:
+                    out.append(('ok', ns))
+                    continue
+                # another version of a loaded namespace given from memory: the property does not say (the code registers it again)
+                return out + ['silent'] * (len(ops) - len(out)), None
+            r = None
+            for dn, dv in inf[2]:
+                r = require(dn, dv, pre + base, 1)
+                if r == 'silent' or r[0] != 'ok':
+                    break
+            if r == 'silent':
+                return out + ['silent'] * (len(ops) - len(out)), None
+            if r is not None and r[0] != 'ok':
+                out.append(r)
+                continue
+            loaded[ns] = (inf[1], '<builtin>', inf[2])
+            out.append(('ok', ns))
     return out, loaded
 
 
@@ -319,7 +341,7 @@ def main(tier, seed):
         if c['rc'] != 0:
             ck.failing_input('repository aborted', dict(ops=c['ops']), detail=c['err'])
             continue
-        want, loaded = spec_run(c['fs'], c['base'], c['ops'], None)
+        want, loaded = spec_run(c['fs'], c['base'], c['ops'], c['blobinfo'])
         for i, (a, b) in enumerate(zip(want, c['res'])):
             if a in (None, 'silent'):
                 if a == 'silent':
@@ -340,7 +362,7 @@ def main(tier, seed):
                 else:
                     for ns, (ver, path, deps) in loaded.items():
                         r = rep[ns]
-                        if r[1] != ver or os.path.normpath(r[2]) != os.path.normpath(path) or \
+                        if r[1] != ver or (os.path.normpath(r[2]) != os.path.normpath(path) and path != r[2]) or \
                                 r[3] != ['%s-%s' % d for d in deps]:
                             ck.failing_input('reported version/path/dependencies differ from the loaded file',
                                              dict(ops=c['ops'], ns=ns), detail=dict(reported=r, expected=(ver, path, deps)))
